@@ -718,7 +718,9 @@ impl World {
         let mut deferred: HashMap<VarId, usize> = HashMap::new();
         let mut readers_in_writing_round = 0u64;
         let mut pend_applied = false;
+        let mut projected_nodes: HashSet<NodeKey> = HashSet::new();
         let mut new_subs: Vec<(usize, usize, bool)> = vec![];
+        let mut cancelled_new: HashSet<usize> = HashSet::new();
         let mut cutoffs: HashMap<NodeKey, Vec<(Val, Val, bool)>> = HashMap::new();
         let mut problems: Vec<(&'static str, String)> = vec![];
         let mut unsubscribed_in_batch: HashSet<usize> = HashSet::new();
@@ -886,17 +888,28 @@ impl World {
                     let _ = by;
                     new_subs.push((*sub, *obs, *ok));
                 }
-                Event::Unsub { sub, result, .. } => {
+                Event::Unsub { sub, by, result } => {
                     if *result != Ok(()) {
-                        problems.push(("C10", format!("handler unsubscribing its own token s{sub} got {:?}", result)));
+                        problems.push(("C10", format!("handler s{by} unsubscribing token s{sub} of its own observer got {:?}", result)));
                     }
+                    let mut was_active = false;
                     if let Some(s) = self.subs.get_mut(*sub).and_then(|s| s.as_mut()) {
+                        was_active = s.active;
                         s.active = false;
+                    } else {
+                        // a subscription made by a handler earlier in this same batch
+                        cancelled_new.insert(*sub);
                     }
-                    unsubscribed_in_batch.insert(*sub);
+                    // (cancelling a token that was already gone changes nothing)
+                    if was_active {
+                        unsubscribed_in_batch.insert(*sub);
+                    }
                 }
                 Event::DisallowBy { obs, .. } => {
                     disallowed_in_batch.insert(*obs);
+                }
+                Event::Projection { key } => {
+                    projected_nodes.insert(*key);
                 }
                 Event::NodeUpdate { node, kind, value } => {
                     handlers_started = true;
@@ -939,7 +952,7 @@ impl World {
                 self.subs.push(None);
             }
             if ok {
-                self.subs[sub] = Some(SubRec { obs, active: true, phase: SubPhase::Fresh, eligible_from_round: k + 1, deliveries: vec![] });
+                self.subs[sub] = Some(SubRec { obs, active: !cancelled_new.contains(&sub), phase: SubPhase::Fresh, eligible_from_round: k + 1, deliveries: vec![] });
             }
         }
         if !self.stats.recompute_orders.contains(&order_hash) && self.stats.recompute_orders.len() < 4096 {
@@ -1081,6 +1094,16 @@ impl World {
         if out_of_cone_stale {
             self.stats.rounds_with_out_of_cone_stale += 1;
         }
+        for key in &projected_nodes {
+            if let NodeKey::Top(n) = key {
+                if !cone_union.contains(n) && !cone_end.contains(n) {
+                    problems.push(("C05", format!(
+                        "the projection function of n{n} (map_ref) ran in round {k} although the node is not needed by any live observer (live observers: {:?})",
+                        live.iter().map(|o| format!("o{o}@n{}", self.observers[*o].node)).collect::<Vec<_>>()
+                    )));
+                }
+            }
+        }
         for key in &invoked_nodes {
             match key {
                 NodeKey::Top(n) => {
@@ -1174,7 +1197,7 @@ impl World {
 
         // ---- C09: subscription sequences ---------------------------------------------------
         if comparable {
-            self.check_subscriptions(k, &handler_events, &disallowed_in_batch, &refs, &invoked_nodes, &written, &cutoffs, &mut problems);
+            self.check_subscriptions(k, &handler_events, &disallowed_in_batch, &unsubscribed_in_batch, &refs, &invoked_nodes, &written, &cutoffs, &mut problems);
         }
         for o in &live {
             let rec = &mut self.observers[*o];
@@ -1243,6 +1266,7 @@ impl World {
             }
         }
         self.last_cone_end = cone_end;
+        problems.extend(self.sh.closure_problems.borrow_mut().drain(..));
         for (p, m) in problems {
             self.violate(p, m);
         }
@@ -1270,6 +1294,7 @@ impl World {
         k: u32,
         handler_events: &[(usize, Upd)],
         disallowed_in_batch: &HashSet<usize>,
+        unsubscribed_in_batch: &HashSet<usize>,
         refs: &[Option<Val>],
         invoked: &HashSet<NodeKey>,
         written: &[bool],
@@ -1294,8 +1319,9 @@ impl World {
             if !eligible {
                 // a handler that unsubscribed itself or disallowed its observer in this very batch
                 // was legitimately called once before doing so
-                let self_stopped = !s.active && s.eligible_from_round <= k && g.len() == 1
-                    && self.sh.events.borrow().iter().rev().take(4096).any(|e| matches!(e, Event::Unsub { sub: x, by, .. } if *x == sub && *by == sub));
+                // (the same goes for a subscription cancelled by a sibling's handler in this batch;
+                // a delivery *after* the cancellation is flagged where the events are scanned)
+                let self_stopped = !s.active && s.eligible_from_round <= k && g.len() == 1 && unsubscribed_in_batch.contains(&sub);
                 if !g.is_empty() && !self_stopped && !(disallowed_in_batch.contains(&s.obs) && g.len() == 1) {
                     problems.push(("C09", format!(
                         "subscription s{sub} on o{} received {:?} in round {k} although it is not entitled to events (active={}, observer {:?}, phase {:?}, eligible from round {})",
